@@ -1,1 +1,95 @@
-// libm contract stubs (cut L1 of DESIGN.md); filled in with the float properties.
+// libm contract stubs (cut L1 of DESIGN.md): sin / cos / asin / acos are environment. Each stub returns a fresh
+// nondeterministic double constrained ONLY by facts that hold for the mathematical function rounded with <= 1 ulp error
+// (glibc documents <= 1 ulp for all four), plus determinism (same argument bits -> same result bits) through a small memo.
+// Every clause is validated against the platform libm by `replay libm_validate` on every run.
+// Only compiled under cfg(kani).
+
+pub const C_PI: f64 = std::f64::consts::PI;
+pub const C_HALF_PI: f64 = 0.5 * std::f64::consts::PI;
+pub const C_T: f64 = 0.72972765622696636344_f64;           // asin(2/3), the crate's TRANSITION_LATITUDE
+pub const C_TWO_THIRD_UP: f64 = 0.666666666666667_f64; // fl(2/3) + 3 ulp
+pub const C_A: f64 = 1.1502619915109311_f64;               // fl(T/2 + pi/4) - 2 ulp
+pub const C_INV_SQRT6_UP: f64 = 0.40824829046386396_f64;   // fl(1/sqrt(6)) + 16 ulp
+pub const C_T_UP: f64 = 0.7297276562269668_f64;                  // fl(T) + 4 ulp
+pub const C_INV_SQRT6_2: f64 = 0.4082482904638632_f64;    // fl(1/sqrt(6)) + 2 ulp
+pub const C_A6: f64 = 1.1502619915109302_f64;              // fl(T/2 + pi/4) - 6 ulp
+pub const C_TINY: f64 = 2.7755575615628914e-17;            // 2^-55 < cos(fl(pi/2)) = 6.1e-17
+
+const MEMO: usize = 3;
+static mut SIN_MEMO: [(bool, u64, u64); MEMO] = [(false, 0, 0); MEMO];
+static mut COS_MEMO: [(bool, u64, u64); MEMO] = [(false, 0, 0); MEMO];
+static mut ASIN_MEMO: [(bool, u64, u64); MEMO] = [(false, 0, 0); MEMO];
+static mut ACOS_MEMO: [(bool, u64, u64); MEMO] = [(false, 0, 0); MEMO];
+
+unsafe fn memo_get(m: *const [(bool, u64, u64); MEMO], key: u64) -> Option<u64> {
+  let m = &*m;
+  if m[0].0 && m[0].1 == key { return Some(m[0].2); }
+  if m[1].0 && m[1].1 == key { return Some(m[1].2); }
+  if m[2].0 && m[2].1 == key { return Some(m[2].2); }
+  None
+}
+unsafe fn memo_put(m: *mut [(bool, u64, u64); MEMO], key: u64, val: u64) {
+  let m = &mut *m;
+  if !m[0].0 { m[0] = (true, key, val); } else if !m[1].0 { m[1] = (true, key, val); } else if !m[2].0 { m[2] = (true, key, val); }
+  else { kani::assume(false); }   // more distinct arguments than the memo holds: path pruned; harnesses are sized so that this is unreachable (cover-checked)
+}
+
+fn fabs(x: f64) -> f64 { f64::from_bits(x.to_bits() & 0x7FFF_FFFF_FFFF_FFFF) }
+
+/// sin: |s| <= 1; s = +-0 exactly for x = +-0; sign of x for 0 < |x| <= pi and s != 0 there; |s| <= |x|; |x| <= T => |s| <= 2/3 (+1 ulp)
+pub fn sin_stub(x: f64) -> f64 {
+  unsafe { if let Some(v) = memo_get(&raw const SIN_MEMO, x.to_bits()) { return f64::from_bits(v); } }
+  let s: f64 = kani::any();
+  kani::assume(s >= -1.0 && s <= 1.0);
+  if x == 0.0 { kani::assume(s.to_bits() == x.to_bits()); }
+  let ax = fabs(x);
+  if ax <= C_PI && x > 0.0 { kani::assume(s > 0.0); }
+  if ax <= C_PI && x < 0.0 { kani::assume(s < 0.0); }
+  if ax < 1.0 { kani::assume(fabs(s) <= ax); }
+  if ax <= C_T { kani::assume(fabs(s) <= C_TWO_THIRD_UP); }
+  unsafe { memo_put(&raw mut SIN_MEMO, x.to_bits(), s.to_bits()); }
+  s
+}
+
+/// cos: |c| <= 1; even; |x| <= fl(pi/2) => c >= 2^-55 (in particular never -0.0); A <= |x| <= fl(pi/2) => c <= 1/sqrt(6) (+2 ulp)
+pub fn cos_stub(x: f64) -> f64 {
+  let ax = fabs(x);
+  unsafe { if let Some(v) = memo_get(&raw const COS_MEMO, ax.to_bits()) { return f64::from_bits(v); } }
+  let c: f64 = kani::any();
+  kani::assume(c >= -1.0 && c <= 1.0);
+  if ax <= C_HALF_PI { kani::assume(c >= C_TINY); }
+  if ax >= C_A && ax <= C_HALF_PI { kani::assume(c <= C_INV_SQRT6_UP); }
+  unsafe { memo_put(&raw mut COS_MEMO, ax.to_bits(), c.to_bits()); }
+  c
+}
+
+/// asin on [-1, 1]: result in [-pi/2, pi/2], odd, sign of z, +-0 for +-0; |z| <= 2/3 (+1 ulp) => |r| <= T (+2 ulp); NaN outside [-1, 1]
+pub fn asin_stub(z: f64) -> f64 {
+  unsafe { if let Some(v) = memo_get(&raw const ASIN_MEMO, z.to_bits()) { return f64::from_bits(v); } }
+  let r: f64 = kani::any();
+  if z >= -1.0 && z <= 1.0 {
+    kani::assume(r >= -C_HALF_PI && r <= C_HALF_PI);
+    if z == 0.0 { kani::assume(r.to_bits() == z.to_bits()); }
+    if z > 0.0 { kani::assume(r > 0.0); }
+    if z < 0.0 { kani::assume(r < 0.0); }
+    if fabs(z) <= C_TWO_THIRD_UP { kani::assume(fabs(r) <= C_T_UP); }
+  } else {
+    kani::assume(r != r);
+  }
+  unsafe { memo_put(&raw mut ASIN_MEMO, z.to_bits(), r.to_bits()); }
+  r
+}
+
+/// acos on [-1, 1]: result in [0, pi]; 0 <= z <= 1/sqrt(6) (+2 ulp) => r in [T/2+pi/4 - 6 ulp, fl(pi/2)]; NaN outside [-1, 1]
+pub fn acos_stub(z: f64) -> f64 {
+  unsafe { if let Some(v) = memo_get(&raw const ACOS_MEMO, z.to_bits()) { return f64::from_bits(v); } }
+  let r: f64 = kani::any();
+  if z >= -1.0 && z <= 1.0 {
+    kani::assume(r >= 0.0 && r <= C_PI);
+    if z >= 0.0 && z <= C_INV_SQRT6_2 { kani::assume(r >= C_A6 && r <= C_HALF_PI); }
+  } else {
+    kani::assume(r != r);
+  }
+  unsafe { memo_put(&raw mut ACOS_MEMO, z.to_bits(), r.to_bits()); }
+  r
+}
